@@ -1,3 +1,4 @@
+mod audit;
 mod core;
 mod driver;
 mod htmlgen;
@@ -8,11 +9,16 @@ mod w2;
 mod w2d;
 mod w2t;
 mod w3;
+mod w4;
+mod w5;
 
 use crate::core::*;
 use crate::driver::*;
 use serde_json::json;
 use std::time::Instant;
+
+#[global_allocator]
+static GLOBAL: audit::Audit = audit::Audit;
 
 macro_rules! with_world {
     ($name:expr, $func:ident $(, $arg:expr)*) => {
@@ -22,6 +28,8 @@ macro_rules! with_world {
             "W2D" => $func::<w2d::W2D>($($arg),*),
             "W3" => $func::<w3::W3>($($arg),*),
             "W1" => $func::<w1::W1>($($arg),*),
+            "W5" => $func::<w5::W5>($($arg),*),
+            "W4" => $func::<w4::W4>($($arg),*),
             other => {
                 eprintln!("unknown world {other}");
                 std::process::exit(2);
@@ -135,6 +143,29 @@ fn plan(prop: &str, tier: Tier) -> Option<Plan> {
             assumptions: vec![
                 "the harness owns the delivery order of matched routes (4 seeded permutations per probe) and the insertion order of rebuilt routers; sampling disabled",
                 "internal hash iteration orders are not behind a seam: they are sampled by rebuilding routers in-process (every HashMap instance has its own key) and by the cross-process determinism self-check",
+            ],
+        },
+        "C05" => Plan {
+            level: "exploration",
+            batches: vec![b("W5", "fold", 40000, 1500000)],
+            assumptions: vec![
+                "R-fold (DESIGN appendix A.2, about 200 lines in w5.rs) written from the statement; details the statement leaves to the code are mirrored, not second-guessed",
+                "for 0 < sampling < 100 without request override the statement does not say which draws apply: the oracle accepts the reference with the rule in or out, never a partial contribution",
+                "the applied-rule list is compared as a set (its order is insertion order across stages, not specified)",
+            ],
+        },
+        "C06" => Plan {
+            level: "exploration",
+            batches: vec![b("W5", "handoff", 20000, 600000), b("W5", "fold", 10000, 300000)],
+            assumptions: vec!["no model: the native object and the object that crossed real serde_json text are driven through the same proxy stage history and compared observation by observation"],
+        },
+        "C18" => Plan {
+            level: "exploration",
+            batches: vec![b("W4", "lifecycles", 4000, 100000)],
+            assumptions: vec![
+                "the contract for returned char* and HeaderMap nodes is release by the caller with free(): the simulated C caller frees them through the recorded layout",
+                "trusted-proxy objects have no drop function by design and are excluded from the balance; a leak counts only if two measured passes after a warm-up pass both leak",
+                "AddressSanitizer is not used: the auditing allocator checks layouts and unknown pointers; use-after-free inside the library without a later bad free is not observed",
             ],
         },
         _ => return None,
@@ -267,6 +298,10 @@ fn worker_cmd<W: World>(a: &WorkerArgs) -> i32 {
     worker::<W>(a)
 }
 
+fn minimise_cmd<W: World>(path: &str, r: &Replay) -> i32 {
+    minimise_file::<W>(path, r)
+}
+
 fn replay_inproc<W: World>(path: &str, r: &Replay) -> i32 {
     replay_inproc_cmd::<W>(path, r)
 }
@@ -300,6 +335,13 @@ fn main() {
             with_world!(args[2].as_str(), worker_cmd, &a)
         }
         Some("replay") => replay_file(&args[2]),
+        Some("minimise") => {
+            let text = std::fs::read_to_string(&args[2]).unwrap_or_default();
+            match serde_json::from_str::<Replay>(&text) {
+                Ok(r) => with_world!(r.world.as_str(), minimise_cmd, &args[2], &r),
+                Err(_) => 2,
+            }
+        }
         Some("replay-inproc") => {
             let text = std::fs::read_to_string(&args[2]).unwrap_or_default();
             match serde_json::from_str::<Replay>(&text) {
